@@ -196,6 +196,15 @@ def thdm_defects():
     D.append(Defect("mHp<0", "input", {"mHp": -440.0}, ("mass",), "negative mass mH+"))
     D.append(Defect("yukawa=0", "structural", {"yukawa_type": 0}, THDM_STYLES, "invalid Yukawa type 0"))
     D.append(Defect("yukawa=7", "structural", {"yukawa_type": 7}, THDM_STYLES, "invalid Yukawa type 7"))
+    # MINPAR[24] is an integer-valued entry (README: "Yukawa type (1 = type I, ..., 6 = general)"): a value
+    # that is not one of the integers 1..6 names no Yukawa scheme, whatever an integer conversion would
+    # make of it.  Program input only (the library interfaces take an enum / int).
+    for tag, val in (("2.5", 2.5), ("1.5", 1.5), ("6.9", 6.9), ("2+1e-9", 2.000000001), ("2-1e-9", 1.999999999),
+                     ("2.999999", 2.999999), ("1e-300", 1e-300), ("nan", float("nan")), ("inf", float("inf"))):
+        d = Defect("yukawa=" + tag, "structural", {"yukawa_type": val}, THDM_STYLES,
+                   "non-integer Yukawa type %s" % tag, special="cli-only")
+        d.pairs_in_quick = False
+        D.append(d)
     D.append(Defect("tach:gauge", "tachyon", {"m122": -1.0e5}, ("gauge",), "tachyonic gauge-basis point (m12^2 = -1e5)"))
     # undecidable basis exists only where the basis is inferred from the file (program)
     D.append(Defect("basis=both", "structural", dict(LAM), ("mass",), "mass and gauge basis both given", special="cli-only"))
